@@ -510,6 +510,32 @@ Lemma world_update_id_detached_lemma : forall w y,
   w_attached w = false -> world_can_id (wstep w (WUpdateID y)) = u32 y.
 Proof. intros w y H. rewrite world_cases_lemma. cbn [wstep w_has_static w_attached w_id]. rewrite H. reflexivity. Qed.
 
+(* every detach path of the public API leads back to the plain message id *)
+Definition detaches (o : wop) : Prop :=
+  o = WDetach \/ o = WDetachAll \/ o = WBusRemove \/ o = WBusRemoveAll \/ o = WRemoveInterface.
+
+Lemma world_detach_lemma : forall w o,
+  detaches o -> w_has_static w = false -> world_can_id (wstep w o) = w_id w.
+Proof.
+  intros w o Ho Hs. rewrite world_cases_lemma.
+  destruct Ho as [-> | [-> | [-> | [-> | ->]]]]; cbn [wstep w_has_static w_attached w_on_bus w_id];
+    rewrite Hs; cbn [andb]; try reflexivity; rewrite andb_false_r; reflexivity.
+Qed.
+
+Lemma world_reattach_lemma : forall w o,
+  detaches o -> w_has_static w = false ->
+  world_can_id (wstep (wstep (wstep w o) WAttach) WBusAdd)
+  = calculate (nth (w_cur w) (w_builders w) []) (w_prio w) (w_id w) (w_node_id w).
+Proof.
+  intros w o Ho Hs. rewrite world_cases_lemma.
+  destruct Ho as [-> | [-> | [-> | [-> | ->]]]];
+    cbn [wstep w_has_static w_attached w_on_bus w_id w_prio w_node_id w_builders w_cur];
+    rewrite Hs; reflexivity.
+Qed.
+
+Lemma world_frame_lemma : forall w, wstep w WFrame = w.
+Proof. reflexivity. Qed.
+
 (* ---------- hypotheses are satisfiable (non-trivial witnesses) ---------- *)
 Example legal_witness : legal 31 1 /\ legal 0 32 /\ legal 4 7 /\ value_kind KMessageID /\ in32 4294967295.
 Proof. unfold legal, value_kind, in32. repeat split; try lia; auto. Qed.
